@@ -4,6 +4,7 @@ import (
 	"bytes"
 	"context"
 	"encoding/json"
+	"io"
 
 	"github.com/goccy/go-json/internal/encoder"
 )
@@ -350,16 +351,26 @@ func HTMLEscape(dst *bytes.Buffer, src []byte) {
 
 // Valid reports whether data is a valid JSON encoding.
 func Valid(data []byte) bool {
+	// a Decoder skips one ',' or ':' before a value (for Token-driven use); a document starts with neither
+	for _, c := range data {
+		if c == ' ' || c == '\t' || c == '\n' || c == '\r' {
+			continue
+		}
+		if c == ',' || c == ':' {
+			return false
+		}
+		break
+	}
 	var v interface{}
 	decoder := NewDecoder(bytes.NewReader(data))
 	err := decoder.Decode(&v)
 	if err != nil {
 		return false
 	}
-	if !decoder.More() {
-		return true
-	}
-	return decoder.InputOffset() >= int64(len(data))
+	// nothing but white space may follow the value: More reports false for ']' and '}' too,
+	// and InputOffset is not a byte count once a string has been unescaped in place
+	var rest interface{}
+	return decoder.Decode(&rest) == io.EOF
 }
 
 func init() {
